@@ -14,7 +14,7 @@ CORPUS = fw.VERIF / 'corpus' / 'C02'
 
 META = {
     'props': 'Props/C02.v',
-    'claimed': False,
+    'claimed': True,
     'level_text': (
         'Proof (Coq, axiom-free) about an executable model of the surface-plant energy bookkeeping, for every series length, '
         'lifetime, year index and time steps per year >= 1: heat extracted per step; conservation in the electricity / topping / '
@@ -185,7 +185,7 @@ def helper_cases(ctx):
         k = rnd.choice([1, 1, 2, 3, 4, 6, 12, 52])
         life = rnd.choice([1, 2, 3, 5, 10, 30] + ([] if ctx.quick else [60, 100]))
         n = max(0, life * k + rnd.choice([0, 0, 0, 1, -1, -k]))
-        i = rnd.choice([0, life - 1, life - 1, rnd.randint(0, life), life])
+        i = rnd.choice([0, life - 1, life - 1, rnd.randint(0, life - 1), rnd.randint(0, life - 1), life])
         cases.append(integrate_case(I, series(n, 1, 90), i, k, round(fl(0.5, 0.99), 3), 'float'))
     # annual_electricity_pumping_power: five distinct series, every end-use option
     for _ in range(ctx.n(120, 3000)):
